@@ -45,16 +45,23 @@ pub fn dry_run(c: &Conc, hist: &str, syms: &Syms) -> (usize, usize) {
 }
 
 #[allow(clippy::too_many_arguments)]
-pub fn run_fault(tr: &mut Trace, c: &Conc, t: i32, hist: &str, syms: &Syms, dest: &str, k: usize, mode: &str, partial: usize, prop: &str) {
+pub fn run_fault(tr: &mut Trace, c: &Conc, t: i32, hist: &str, syms: &Syms, dest: &str, k: usize, mode: &str, partial: usize, prop: &str) -> bool {
+    run_fault_kind(tr, c, t, hist, syms, dest, k, mode, partial, prop, false)
+}
+
+/// `interrupted`: a failing seek or flush reports ErrorKind::Interrupted; returns whether the fault hit a seek or flush
+#[allow(clippy::too_many_arguments)]
+pub fn run_fault_kind(tr: &mut Trace, c: &Conc, t: i32, hist: &str, syms: &Syms, dest: &str, k: usize, mode: &str, partial: usize, prop: &str, interrupted: bool) -> bool {
     let sa = build(c, &syms.a);
     let sb = build(c, &syms.b);
     let (oa, ob) = (abstract_shape(c, &sa), abstract_shape(c, &sb));
     tr.run(json!({"ev": "reset", "kind": "fault", "t": t, "withShx": true, "hist": hist, "dest": dest, "k": k,
-                  "mode": mode, "partial": partial, "prop": prop}));
+                  "mode": mode, "partial": partial, "prop": prop, "interrupted": interrupted}));
     let shp = LogDest::new();
     let shx = LogDest::new();
     let target = if dest == "shp" { shp.clone() } else { shx.clone() };
     target.set_fault(Some(k), mode == "persistent", partial);
+    target.set_interrupted(interrupted);
     let mut w = Some(ShapeWriter::with_shx(shp.clone(), shx.clone()));
     let mut accepted: Vec<Shape> = vec![];
     let fired_total = |a: &LogDest, b: &LogDest| a.faults_fired() + b.faults_fired();
@@ -64,13 +71,13 @@ pub fn run_fault(tr: &mut Trace, c: &Conc, t: i32, hist: &str, syms: &Syms, dest
             'a' | 'b' => {
                 let (s, o) = if ch == 'a' { (&sa, &oa) } else { (&sb, &ob) };
                 let wr = w.as_mut().unwrap();
-                let n0 = shp.nops();
+                let (n0, x0) = (shp.nops(), shx.nops());
                 let r = res_of(guarded(|| with_inner!(s, v => wr.write_shape(v), Ok(()))));
                 if r == "ok" {
                     accepted.push(clone_shape(s));
                 }
                 tr.emit(json!({"ev": "fwrite", "shape": o.to_json(), "res": r, "fired": fired_total(&shp, &shx) > f0,
-                               "fxShp": effects_json(&shp.ops()[n0..])}));
+                               "fxShp": effects_json(&shp.ops()[n0..]), "fxShx": effects_json(&shx.ops()[x0..])}));
             }
             'F' => {
                 let wr = w.as_mut().unwrap();
@@ -102,6 +109,7 @@ pub fn run_fault(tr: &mut Trace, c: &Conc, t: i32, hist: &str, syms: &Syms, dest
                    "shp": jbytes(&shp.bytes()), "shx": jbytes(&shx.bytes()),
                    "flushedShp": shp.is_flushed(), "flushedShx": shx.is_flushed(),
                    "plainShp": jbytes(&ps), "plainShx": jbytes(&px)}));
+    target.fault_nonwrite()
 }
 
 pub fn run(a: &Args) {
@@ -138,8 +146,13 @@ pub fn run(a: &Args) {
             let (ns, nx) = dry_run(c, hist, &syms);
             for (dest, n) in [("shp", ns), ("shx", nx)] {
                 for k in 0..n + 1 {
-                    run_fault(&mut traces[i], c, t, hist, &syms, dest, k, "oneshot", 0, &prop);
+                    let nonwrite = run_fault(&mut traces[i], c, t, hist, &syms, dest, k, "oneshot", 0, &prop);
                     cases += 1;
+                    if nonwrite {
+                        // the same failing seek / flush, reported the way EINTR is
+                        run_fault_kind(&mut traces[i], c, t, hist, &syms, dest, k, "oneshot", 0, &prop, true);
+                        cases += 1;
+                    }
                     if k % 3 == 0 {
                         run_fault(&mut traces[i], c, t, hist, &syms, dest, k, "oneshot", 1 + r.below(3), &prop);
                         run_fault(&mut traces[i], c, t, hist, &syms, dest, k, "persistent", 0, &prop);
